@@ -492,8 +492,6 @@ def compare_run(r, rep, m):
         if r.outcome.startswith('mpilot:'):
             if rep['exc'] != r.exc:
                 return "outcome sym=%s real=%s" % (r.outcome, rep['exc'])
-            if getattr(r, 'inner', None) and rep.get('inner') and not _exc_compatible(r.inner, rep['inner']):
-                return "wrapped exception sym=%s real=%s" % (r.inner, rep['inner'])
         elif not _exc_compatible(r.exc, rep['exc']):
             return "outcome sym=%s real=%s (%s)" % (r.outcome, rep['exc'], rep.get('msg'))
         return _compare_after(r, rep, ev)
